@@ -188,6 +188,38 @@ def gen_cases(rng, tier):
     return [{"id": i, "label": l, "ast": e} for i, (l, e) in enumerate(out)]
 
 
+# families written as source text (forms the AST emitter and the Coq model do not cover: computed negative zero,
+# tuple projection, float arithmetic): every member of a family is the same value, so the answer of each context is known
+RAW_FAMILIES = {
+    "zero": ["0", "(0 * -1)", "(0 / -5)", "(1 - 1)", "(-1 * 0)", "({} count)"],
+    "half": ["0.5", "(1 / 2)", "(1.5 - 1)", "(2 ^ -1)"],
+    "neg1": ["(-1)", "(0 - 1)", "(1 * -1)", "(-(1))"],
+    "entry_k": ['(@: "k", @value: 1)', '((@: "k", @value: 1, x: 2).~|x|)', '((@: "k", @value: 1, x: 2).|@, @value|)', '((@: "k") +> (@value: 1))'],
+    "entry_1": ['(@: 1, @value: "v")', '((@: 1, @value: "v", x: 2).~|x|)', '((@value: "v") +> (@: 1))'],
+    "item_k": ['(@: 1, @item: "a")', '((@: 1, @item: "a", x: 2).~|x|)', '((@: 1, @item: "a", x: 2).|@, @item|)'],
+    "char_0": ["(@: 0, @char: 97)", "((@: 0, @char: 97, x: 2).~|x|)", "((@char: 97, @: 0, y: {}).~|y|)"],
+    "byte_0": ["(@: 0, @byte: 7)", "((@: 0, @byte: 7, x: 2).~|x|)"],
+    "dict_k": ['{"k": 1}', '{(@: "k", @value: 1)}', '{((@: "k", @value: 1, x: 2).~|x|)}', '{|@, @value| ("k", 1)}', '({"k": 1, "j": 2} where .@ = "k")'],
+    "tuple_ab": ["(a: 1, b: 2)", "((a: 1, b: 2, c: 3).~|c|)", "((a: 1, b: 2, c: 3).|a, b|)", "((b: 2) +> (a: 1))"],
+}
+RAW_FILLER = ", ".join("{%d}" % (100 + i) for i in range(12))
+RAW_CONTEXTS = [("eq", "(%(a)s = %(b)s)", True), ("ne", "(%(a)s != %(b)s)", False), ("setcount", "({%(a)s, %(b)s} count)", 1),
+                ("dictcall", "({%(a)s: 1}(%(b)s)?:0)", 1), ("member", "(%(a)s <: {%(b)s, 77})", True),
+                ("bigset", "({" + RAW_FILLER + ", %(a)s, %(b)s} count)", 13), ("bigmember", "(%(a)s <: {" + RAW_FILLER + ", %(b)s})", True),
+                ("bigdict", "({" + ", ".join("{%d}: 0" % (100 + i) for i in range(12)) + ", %(a)s: 1}(%(b)s)?:99)", 1),
+                ("bigwith", "(({" + RAW_FILLER + ", %(a)s} with %(b)s) count)", 13), ("bigwithout", "(({" + RAW_FILLER + ", %(a)s} without %(b)s) count)", 12)]
+
+
+def raw_family_cases():
+    cs = []
+    for f, members in sorted(RAW_FAMILIES.items()):
+        for a in members:
+            for b in members:
+                for k, tmpl, want in RAW_CONTEXTS:
+                    cs.append({"id": len(cs), "family": f, "ctx": k, "src": tmpl % {"a": a, "b": b}, "want": want})
+    return cs
+
+
 def repr_cases(F):
     cs = []
     for f in sorted(F):
@@ -227,13 +259,25 @@ def main(tier, seed, replay=None):
             if len(reprs) > 1:
                 run.classify_failure(None, {"case": {"family": f, "reprs": {k: v[:3] for k, v in reprs.items()}},
                                             "oracle": "equal values (family %s) print differently" % f})
+    nraw = 0
+    if not replay or json.load(open(replay))["case"].get("raw"):
+        rawc = raw_family_cases() if not replay else [dict(json.load(open(replay))["case"], id=0)]
+        wouts, _, _ = run_harness(vh, "eval", [{"id": c["id"], "src": c["src"]} for c in rawc])
+        for c in rawc:
+            o = wouts.get(c["id"]) or {"st": "missing"}
+            nraw += 1
+            want = c["want"]
+            wantd = ({"s": [{"t": []}], "c": 1} if want is True else {"s": [], "c": 0} if want is False else {"n": str(want)})
+            if o.get("st") != "ok" or o.get("val") != wantd:
+                run.classify_failure(None, {"case": {"raw": True, "family": c["family"], "ctx": c["ctx"], "src": c["src"], "want": want}, "observed": o,
+                                            "oracle": "two constructions of one value (family %s) are not interchangeable in context %s" % (c["family"], c["ctx"])})
     fams = {}
     for c in cases:
         k = (c.get("label") or "").split(" ")[0]
         fams[k] = fams.get(k, 0) + 1
     evalcheck.stats(run, cases, outs, codes,
-                    "%d families of construction paths (sugar literal, {|@,@char|..} relation literal, set of spelled tuples, with/without, where, =>, >>, ++, offsets, +>, &, &~, |) each reaching one denotation; contexts: =, !=, {a,b} count, {a:1}(b), <:, union count, subset tests, operator interchange a op c = b op c; pairs inside a family (70%%), across families and against unrelated values; plus %d printed forms compared inside each family"
+                    "%d families of construction paths (sugar literal, {|@,@char|..} relation literal, set of spelled tuples, with/without, where, =>, >>, ++, offsets, +>, &, &~, |) each reaching one denotation; contexts: =, !=, {a,b} count, {a:1}(b), <:, union count, subset tests, operator interchange a op c = b op c; pairs inside a family (70%%), across families and against unrelated values; plus %d printed forms compared inside each family; plus every ordered pair inside 10 families written as source text (computed negative zero, halves, tuple projection .~|x| / .|a,b| of dict-entry / item / char / byte tuples, dicts of such entries) in 10 contexts incl. containers of more than 8 members"
                     % (len(families()), nrep) + ("; thorough = every ordered pair inside every family x {=, set count, dict call}" if tier == "thorough" else ""),
-                    {"context_histogram": fams, "repr_comparisons": nrep, "exhaustive": False})
+                    {"context_histogram": fams, "repr_comparisons": nrep, "text_family_cases": nraw, "exhaustive": False})
     run.assumptions = ["functions are outside the data fragment", "numbers integer/half-integer < 2^53"]
     return run.finish(proof)
